@@ -76,6 +76,10 @@ fn single_layer(rng: &mut Rng, idx: u64, out: &mut Out) {
     layer_check(rng, kind, l, input, out, idx < 6);
 }
 
+/// Small dyadic values: sums and products of these hit exact round numbers, equal elements and
+/// cancellations occur often.
+pub const PALETTE: [f32; 9] = [-2.0, -1.0, -0.5, 0.0, 0.0, 0.5, 1.0, 1.0, 2.0];
+
 /// Sizes around the powers of two at which blocked / chunked / parallel code paths switch.
 pub const THRESHOLDS: [usize; 24] = [31, 32, 33, 63, 64, 65, 66, 127, 128, 129, 130, 255, 256, 257, 511, 513, 1023, 1025, 2047, 2049, 4095, 4096, 4097, 8193];
 
@@ -145,7 +149,28 @@ fn layer_check(rng: &mut Rng, kind: &str, l: LCfg, input: Sh, out: &mut Out, sam
     }
     let params = gen_params(&cfg, rng, -1.5, 1.5).unwrap();
     let scale = *rng.pick(&[1.0f32, 1.0, 1.0, 1.0, 1e-12, 1e-6, 1e6, 1e12, 1e-30, 1e-38, 1e30]);
-    let x: Vec<f32> = random_input(rng, input).iter().map(|v| v * scale).collect();
+    let mut x: Vec<f32> = random_input(rng, input).iter().map(|v| v * scale).collect();
+    let mut params = params;
+    // one case in eight: inputs (and one in sixteen: parameters too) from the dyadic palette
+    match rng.range(0, 15) {
+        0 => {
+            for v in x.iter_mut() {
+                *v = *rng.pick(&PALETTE);
+            }
+            out.count("layer_cases_with_palette_inputs", 1);
+        }
+        1 => {
+            for v in x.iter_mut() {
+                *v = *rng.pick(&PALETTE);
+            }
+            for q in params.iter_mut() {
+                let vals: Vec<f32> = (0..q.count()).map(|_| *rng.pick(&PALETTE)).collect();
+                q.set_flat(&vals);
+            }
+            out.count("layer_cases_with_palette_inputs_and_parameters", 1);
+        }
+        _ => {}
+    }
     let net = match build(&cfg, Some(&params)) {
         Ok(n) => n,
         Err(m) => {
@@ -192,9 +217,25 @@ fn layer_check(rng: &mut Rng, kind: &str, l: LCfg, input: Sh, out: &mut Out, sam
 fn network_case(rng: &mut Rng, idx: u64, out: &mut Out) {
     let mut o = NetOpts::standard();
     o.max_depth = 5;
-    let cfg = random_net(rng, &o);
+    // every sixth network: a stack of channel-preserving convolutions / deconvolutions with
+    // per-layer kernels and paddings (intermediate tensors of equal shape, different margins)
+    let mut cfg = random_net(rng, &o);
+    if idx % 6 == 5 {
+        let st = crate::monitors::c05::stack_net(rng);
+        if st.shapes().is_ok() {
+            cfg = st;
+            out.count("networks_that_are_convolution_stacks", 1);
+        }
+    }
     let params = gen_params(&cfg, rng, -1.5, 1.5).unwrap();
-    let x = random_input(rng, cfg.input);
+    let mut x = random_input(rng, cfg.input);
+    // every eighth network: inputs from a small dyadic palette (exact ones, halves, values that
+    // cancel: data-dependent shortcuts have something to trigger on)
+    if idx % 8 == 3 {
+        for v in x.iter_mut() {
+            *v = *rng.pick(&PALETTE);
+        }
+    }
     out.key = format!("net {}", cfg.describe());
     out.cover("architectures", cfg.architecture());
     for l in cfg.layers.iter() {
@@ -295,7 +336,7 @@ impl Monitor for C02 {
         vec![("layers", tier.pick(486_000, 4_860_000)), ("large", tier.pick(6_000, 120_000)), ("networks", tier.pick(60_000, 600_000))]
     }
     fn rule(&self) -> &'static str {
-        "layers: case i -> layer kind (dense, conv, deconv, pool; conv and deconv twice as often), activation (i/6 mod 6, soft-max over the whole layer output included), geometry from the covering walk over the 108 per-axis (kernel 1..3, stride 1..3, padding 0..3, dilation 1..3) tuples on each axis independently (rectangular kernels, asymmetric stride/padding/dilation), channels/filters 1..3, extents from the smallest valid one up to 8, repetition-free weights and inputs in [-1.5,1.5], inputs scaled by 1 / 1e-12 / 1e-6 / 1e6 / 1e12 / 1e-30 / 1e-38 (products become subnormal) / 1e30; the layer's public forward is called with the 3-D tensor and with its row-major flattening; pre- and post-activation must lie within the running f32 error bound (refmodel::E) of the gather-form reference operator and have its shape. large: the same check on layers that are large in one direction - dense layers with inputs or outputs from {31..33, 63..66, 127..130, 255..257, 511, 513, 1023, 1025, 2047, 2049, 4095..4097, 8193} or random up to 9000, spatial layers with one extent from the same list up to 257 (the other 1..6), 1..17 channels and filters, kernels 1..7, stride 1..5, padding 0..4, dilation 1..4 (reference work bounded by 4e5 multiply-adds per case). networks: random sequences (depth 1..5, dense->spatial and spatial->dense transitions) - predict and every intermediate output of forward vs the composed reference, predict == manual composition of the layers' own forward (bit-exact), flat input representation too; every second network additionally answers a call sequence on the same object (another input, the first input again - bit-equal to its first answer -, then replaced parameters: reference at the current input and parameters). Distinct = distinct configuration descriptors."
+        "layers: case i -> layer kind (dense, conv, deconv, pool; conv and deconv twice as often), activation (i/6 mod 6, soft-max over the whole layer output included), geometry from the covering walk over the 108 per-axis (kernel 1..3, stride 1..3, padding 0..3, dilation 1..3) tuples on each axis independently (rectangular kernels, asymmetric stride/padding/dilation), channels/filters 1..3, extents from the smallest valid one up to 8, repetition-free weights and inputs in [-1.5,1.5] (one case in eight: inputs, one in sixteen: parameters too, from the dyadic palette {-2,-1,-0.5,0,0.5,1,2}), inputs scaled by 1 / 1e-12 / 1e-6 / 1e6 / 1e12 / 1e-30 / 1e-38 (products become subnormal) / 1e30; the layer's public forward is called with the 3-D tensor and with its row-major flattening; pre- and post-activation must lie within the running f32 error bound (refmodel::E) of the gather-form reference operator and have its shape. large: the same check on layers that are large in one direction - dense layers with inputs or outputs from {31..33, 63..66, 127..130, 255..257, 511, 513, 1023, 1025, 2047, 2049, 4095..4097, 8193} or random up to 9000, spatial layers with one extent from the same list up to 257 (the other 1..6), 1..17 channels and filters, kernels 1..7, stride 1..5, padding 0..4, dilation 1..4 (reference work bounded by 4e5 multiply-adds per case). networks: random sequences (depth 1..5, dense->spatial and spatial->dense transitions) - predict and every intermediate output of forward vs the composed reference, predict == manual composition of the layers' own forward (bit-exact), flat input representation too; every second network additionally answers a call sequence on the same object (another input, the first input again - bit-equal to its first answer -, then replaced parameters: reference at the current input and parameters). Distinct = distinct configuration descriptors."
     }
     fn assumptions(&self) -> Vec<&'static str> {
         vec!["'the same result for flat and CxHxW input' is decided by comparing both with the reference within the rounding bound (bit-identity is recorded, not demanded)", "harness built with overflow checks on (debug-profile integer semantics)"]
